@@ -4,8 +4,8 @@ import WK.Model.ReplJudge
 
   Judge per owner (one quorumLog = one node between restarts), from the
   implementation's results only:
-   * an install whose id is below the highest id the owner has adopted must be
-     rejected (`viol:older-authority-installed`);
+   * an install whose id is below the highest id the owner has adopted must not succeed nor
+     become the owner's authority (`viol:older-authority-installed`);
    * a fenced install never succeeds (`viol:fenced-install-ok`);
    * a successful install reports the requested id (`viol:install-authority-mismatch`);
    * a receipt is only returned for Expected = the id of the owner's last
@@ -24,7 +24,8 @@ def judge (j : JState) (op : Op) (cur : Obs) : String :=
       | some h => cmpAuth a.id h == .lt
       | none => false
     if cur.isOk && a.fenced then "viol:fenced-install-ok"
-    else if lower && !(cur.errClass == "stale" || cur.errClass == "invalid" || cur.errClass == "notup") then
+    else if lower && (cur.isOk || ((cur.leader i).status == "present" && decide ((cur.leader i).a = a.id))) then
+      -- the owner reports the older id as its authority afterwards (or even answered ok)
       "viol:older-authority-installed"
     else if cur.isOk then
       (match cur.res with
